@@ -231,6 +231,10 @@ pub const MUTATORS: &[&str] = &[
     "nosuchcmd_c12",
     "shift 9",
     "readonly v1; v1=again",
+    "< missing_c12.txt",
+    "< sub",
+    "printf '\\xff\\xfe\\n'",
+    "echo visible_c12",
 ];
 
 pub const PROCESS_WIDE: &[&str] = &["umask 077", "ulimit -S -n 768"];
@@ -241,8 +245,23 @@ fn neutralise(m: &str) -> String {
     ":".to_string()
 }
 
+/// Known finding: `$(< file)` with a file that cannot be read raises an error that leaves the
+/// substitution (the enclosing command, list or script is abandoned).
+fn bare_redirect_shape(case: &Case) -> bool {
+    let bare = |c: &Context, ms: &[String]| matches!(c, Context::CmdSubst | Context::Backquote) && ms.len() == 1 && ms[0].starts_with("< ");
+    bare(&case.context, &case.mutators) || case.second.as_ref().is_some_and(|(c, ms)| bare(c, ms))
+}
+
 fn ctx_text(ctx: &Context, body: &str, idx: usize) -> (String, String) {
     // returns (definitions, command)
+    // nobody reads a coprocess's output here: a body that prints would block on a small pipe
+    let quiet;
+    let body = if matches!(ctx, Context::Coproc | Context::CoprocSimple) {
+        quiet = body.replace("printf '\\xff\\xfe\\n'", ":").replace("echo visible_c12", ":");
+        quiet.as_str()
+    } else {
+        body
+    };
     match ctx {
         Context::Subshell => (String::new(), format!("( {body} )")),
         Context::NestedSubshell => (String::new(), format!("( ( {body} ) )")),
@@ -437,6 +456,8 @@ fn mask_snapshot(v: &mut Value) {
     // the coprocess's job number is documented parent state and depends on which earlier jobs
     // have already been swept
     remove_keys_with_prefix(v, &["COPROC_PID"]);
+    // what a command substitution printed flows back by design
+    remove_keys_with_prefix(v, &["cs0", "cs1", "bq0", "bq1"]);
     if let Some(funcs) = v.pointer_mut("/funcs") {
         remove_keys_with_prefix(funcs, &["mf0", "mf1", "bf0", "bf1", "pf"]);
     }
@@ -522,7 +543,7 @@ pub fn judge(case: &Case) -> Verdict {
             v.violation = Some(viol(
                 "C12/leak/parent-ended",
                 format!("parent did not reach its final snapshot; status={:?} stderr={:?} script={script:?}", r.status, String::from_utf8_lossy(&r.err)),
-                None,
+                if bare_redirect_shape(case) { Some("bare-input-redirect-error-escapes-substitution") } else { None },
             ));
             return v;
         };
@@ -547,7 +568,13 @@ pub fn judge(case: &Case) -> Verdict {
         v.violation = Some(Violation {
             class: "C12/leak/control-flow".into(),
             detail: format!("the parent's own probes differ: {:?} with mutators vs {:?} without; script={script_a:?}", tagseqs[0], tagseqs[1]),
-            known_shape: if spaced { Some("spaced-double-paren-parsed-as-arithmetic".into()) } else { None },
+            known_shape: if spaced {
+                Some("spaced-double-paren-parsed-as-arithmetic".into())
+            } else if bare_redirect_shape(case) {
+                Some("bare-input-redirect-error-escapes-substitution".into())
+            } else {
+                None
+            },
         });
         return v;
     }
@@ -567,6 +594,9 @@ pub fn judge(case: &Case) -> Verdict {
             // `( ( M ) )` is parsed as the arithmetic command `(( M ))`, which can only assign
             // variables of the parent
             ("C12/leak/env".to_string(), Some("spaced-double-paren-parsed-as-arithmetic"))
+        } else if bare_redirect_shape(case) && diffs.iter().all(|d| d.starts_with("env.entry_count")) {
+            // the assignment that holds the substitution was abandoned with it
+            ("C12/leak/env".to_string(), Some("bare-input-redirect-error-escapes-substitution"))
         } else if only_umask && has_umask {
             ("C12/leak/umask".to_string(), Some("umask-is-process-wide"))
         } else if only_rlimit && has_ulimit {
